@@ -258,7 +258,7 @@ let shard, nshards =
   | _ -> (0, 1)
 let counter = ref 0
 let both_lazy (emit : emit) (case : unit -> string) (f : bool -> string) =
-  let mine = !counter mod nshards = shard in
+  let mine = Streams.mine () in
   incr counter;
   if mine then emit (case ()) (f true) (f false) else emit "" "" ""
 
